@@ -278,7 +278,35 @@ func init() {
 	register("C08", genC08)
 }
 
+// genC05shared: several connections receive large packets while their handlers are still
+// holding earlier ones (parked): a receiver must hand out bodies nobody else writes to.
+func genC05shared(r *Rand, p *Plan, tier string) {
+	p.Family = "framing-concurrent"
+	p.Scen.Server = "probe"
+	n := 2 + r.Intn(2)
+	for i := 0; i < n; i++ {
+		key := r.key()
+		cs := ClientSpec{Addr: clientAddr(i), Key: key, SrvKey: key, NotBefore: r.Intn(4)}
+		for k := 0; k < 1+r.Intn(3); k++ {
+			body := bigBody(r, PickOf(r, 4096, 4097, 5000, 8192, 20000, 300))
+			cs.Ops = append(cs.Ops, Op{Kind: "send", Pkt: &PktSpec{Ver: 0xc0, Type: model.TypeAuthen, Seq: uint8(1 + 2*k), Flags: r.flags(false), Session: uint32(100*i + k), Body: body}})
+			cs.Handler = append(cs.Handler, HStep{Park: r.Chance(70), Reply: smallReply(r, model.TypeAuthen)})
+		}
+		cs.Ops = append(cs.Ops, Op{Kind: "idle"})
+		p.Scen.Clients = append(p.Scen.Clients, cs)
+	}
+	p.Park = []string{"handler"}
+	if r.Bool() {
+		p.Mode = "batch"
+	}
+	p.Tape = r.Tape(1500)
+}
+
 func genC05(r *Rand, p *Plan, tier string) {
+	if r.Chance(12) {
+		genC05shared(r, p, tier)
+		return
+	}
 	p.Family = "framing"
 	p.Scen.Server = "probe"
 	sub := r.Intn(10)
@@ -521,6 +549,18 @@ func genC08(r *Rand, p *Plan, tier string) {
 	insertAwaits(r, &cs, PickOf(r, 0, 100))
 	if r.Chance(30) {
 		cs.Ops = append(cs.Ops, Op{Kind: "close"})
+	}
+	if r.Chance(15) {
+		// a reply is lost to a transport fault: the session table must not care
+		cs.WFault = append(cs.WFault, WFaultAt(1+r.Intn(3), PickOf(r, "error", "error", "short")))
+		p.Scen.Faulty = true
+		var ops []Op
+		for _, o := range cs.Ops {
+			if o.Kind != "await" {
+				ops = append(ops, o) // the lost reply would never arrive: pipeline instead
+			}
+		}
+		cs.Ops = ops
 	}
 	p.Scen.Clients = []ClientSpec{cs}
 	p.Tape = r.Tape(800)
